@@ -15,6 +15,7 @@ package rfc
  */
 
 import (
+	"sort"
 	"strings"
 
 	"github.com/zmap/zcrypto/x509"
@@ -79,6 +80,8 @@ func (l *extDuplicateExtension) Execute(cert *x509.Certificate) *lint.LintResult
 	for oid := range duplicateOIDs {
 		duplicateOIDsList = append(duplicateOIDsList, oid)
 	}
+	// map iteration order is random: sort for a reproducible details string
+	sort.Strings(duplicateOIDsList)
 
 	return &lint.LintResult{
 		Status:  lint.Error,
